@@ -438,3 +438,72 @@ def wrapper_pairing(check: Check, repo: Repo, funcs: list[tuple[str, str]], rule
                          f"(facts: {[sorted(p) for p in pinned]})")
         if n == 0:
             raise AnalysisError(f"{q}: no double-unwrapping recursion found")
+
+
+# -- the validation result cache of a schema ---------------------------------------------------
+
+CACHE_ATTR = "_validation_errors"
+CACHE_TOUCHERS = {
+    ("graphql.type.schema", "GraphQLSchema.__init__"): "initialises the cache from the assume_valid argument",
+    ("graphql.type.schema", "GraphQLSchema.validation_errors"): "read-only property",
+    ("graphql.type.validate", "validate_schema"): "the only consumer and the only writer after construction",
+}
+
+
+def validation_cache(check: Check, repo: Repo, rule: str = "VALIDATION-CACHE") -> None:
+    from sa.loader import module_of
+
+    check.rule(
+        rule,
+        "GraphQLSchema._validation_errors is the typestate 'already validated': (1) it is touched only by "
+        "GraphQLSchema.__init__, the validation_errors property and validate_schema - no other code derives "
+        "validity from it (a copy made through to_kwargs of a validated schema must be validated again); "
+        "(2) __init__ sets it from the assume_valid argument alone; (3) validate_schema publishes it only "
+        "after the last validate_* call on the context - no validation call is reachable after the store - "
+        "so a schema observed as 'validated' has been validated completely",
+    )
+    n = 0
+    for mod in repo.modules.values():
+        for a in ast.walk(mod.tree):
+            if isinstance(a, ast.Attribute) and a.attr == CACHE_ATTR:
+                key = (mod.name, qualname_of(a))
+                if qualname_of(a) == "GraphQLSchema":  # class-level annotation
+                    continue
+                ok = key in CACHE_TOUCHERS
+                n += 1
+                check.ob(rule, a, f"{qualname_of(a)}: {'store to' if isinstance(a.ctx, ast.Store) else 'read of'} {unparse(a)}", ok,
+                         CACHE_TOUCHERS.get(key, "") if ok else
+                         f"`{CACHE_ATTR}` is {'written' if isinstance(a.ctx, ast.Store) else 'read'} outside __init__ / validate_schema: "
+                         "validity is derived from (or forged into) the cache of another schema object")
+    init = repo.func("type.schema", "GraphQLSchema.__init__")
+    stores = [s for s in walk_body(init) if isinstance(s, ast.Assign) and any(isinstance(t, ast.Attribute) and t.attr == CACHE_ATTR for t in s.targets)]
+    names = {x.id for s in stores for x in ast.walk(s.value) if isinstance(x, ast.Name)}
+    ok = len(stores) == 1 and names == {"assume_valid"} and isinstance(stores[0].value, ast.IfExp) \
+        and isinstance(stores[0].value.orelse, ast.Constant) and stores[0].value.orelse.value is None
+    check.ob(rule, stores[0] if stores else init, "__init__: cache initialised from assume_valid only", ok,
+             "[] if assume_valid else None" if ok else f"initial value depends on {sorted(names)}")
+    # publish after complete
+    vs = repo.func("type.validate", "validate_schema")
+    cfg = CFG(vs)
+    wr = [s for s in walk_body(vs) if isinstance(s, ast.Assign) and any(isinstance(t, ast.Attribute) and t.attr == CACHE_ATTR for t in s.targets)]
+    if not wr:
+        check.ob(rule, vs, "validate_schema stores the result", False, "the result is never cached: every request re-validates (not a violation of C20, but the anchor is gone)")
+        return
+    ctx_names = {
+        t.id for s in walk_body(vs) if isinstance(s, ast.Assign) and isinstance(s.value, ast.Call) and call_name(s.value) == "SchemaValidationContext"
+        for t in s.targets if isinstance(t, ast.Name)
+    }
+    work = [
+        c for c in walk_body(vs)
+        if isinstance(c, ast.Call) and isinstance(c.func, ast.Attribute) and isinstance(c.func.value, ast.Name) and c.func.value.id in ctx_names
+    ]
+    if len(work) < 3:
+        raise AnalysisError("validate_schema: validation calls on the context not found")
+    for w in wr:
+        starts = cfg.nodes_of(w)
+        reach = cfg.reachable(starts, follow=no_exc)
+        late = [c for c in work if any(nd in reach and nd not in starts for nd in cfg.node_for_expr(c))]
+        check.ob(rule, w, f"validate_schema: `{node_text(w, 60)}` after the last validation call", not late,
+                 f"all {len(work)} context.validate_* calls precede the store" if not late else
+                 f"`{unparse(late[0])}` runs after the cache was published: until it returns, the schema already counts as validated with a partial error list")
+    check.floor(rule, 4, "accesses to the validation cache")
